@@ -27,12 +27,16 @@
 /* Which call fails is a CONSTANT per call site of the harness (see run_cfg): a failure decided by a
  * fresh symbolic value inside a stub merges "returned NULL" with "returned the block" when the stub
  * returns, and every later loop over that block then has a symbolic trip count. */
-static int call_no, fail_at = -1, late_fail;
+static int call_no, early_fail = -1, late_fail_at = -1, late_fail;
 static bool should_fail(void)
 {
-  return call_no++ == fail_at;
+  int n = call_no++; /* a constant for the symbolic executor */
+  if (n < 6) {
+    return n == early_fail; /* constant: early calls never depend on the symbolic late position */
+  }
+  return n == late_fail_at;
 }
-enum { POOL_SLOTS = 6, POOL_ELEMS = 12 };
+enum { POOL_SLOTS = 6, POOL_ELEMS = 14 };
 /* separate one-dimensional arrays: a block inside a two-dimensional pool made CBMC rewrite the
  * whole pool (byte_update) on every store */
 static wchar_t w0[POOL_ELEMS], w1[POOL_ELEMS], w2[POOL_ELEMS], w3[POOL_ELEMS], w4[POOL_ELEMS], w5[POOL_ELEMS];
@@ -194,7 +198,8 @@ HANDLE handle_destroy(HANDLE h)
  * the converted text has a symbolic trip count (no verdict within 18 GB). */
 static wchar_t CONV_CMD[] = { 'p', ' ', '"', 'x', ' ', 'y', '"', 0 };
 static wchar_t CONV_WD[] = { 'w', 'd', 0 };
-static wchar_t CONV_EXTRA[] = { 'A', '=', 'b', 0, 0 };
+static wchar_t CONV_EXTRA[] = { 'A', '=', 'b', 0, 'C', '=', 'd', 0, 0 };
+static wchar_t CONV_OTHER[] = { '?', 0, 0 };
 static int conv_live;
 static bool conv_cmd_ok, conv_extra_ok;
 static const char wd_str[] = "wd";
@@ -209,7 +214,8 @@ static bool ceq(const char *a, const char *b, int n)
 }
 static bool is_conv_block(const void *p)
 {
-  return p == (const void *) CONV_CMD || p == (const void *) CONV_WD || p == (const void *) CONV_EXTRA;
+  return p == (const void *) CONV_CMD || p == (const void *) CONV_WD || p == (const void *) CONV_EXTRA ||
+         p == (const void *) CONV_OTHER;
 }
 wchar_t *utf16_from_utf8(const char *s, int size)
 {
@@ -219,17 +225,24 @@ wchar_t *utf16_from_utf8(const char *s, int size)
     return NULL;
   }
   conv_live++;
-  /* the block is chosen by the IDENTITY of the source (constant for the symbolic executor); whether
-   * the source holds the expected text is recorded separately and asserted by the harness */
+  /* the block is chosen by the IDENTITY of the source (a constant for the symbolic executor): the
+   * caller's working directory, the first byte block handed out (argv_join's command line), the
+   * second one (env_join's block of extra entries), anything else. Whether the source holds the
+   * expected text, and how much of it the library asks to convert, is recorded separately and
+   * asserted by the harness. */
   if (s == wd_str) {
     return CONV_WD;
   }
-  if (size == -1) {
-    conv_cmd_ok = ceq(s, "p \"x y\"", 8);
+  if (s == c0) {
+    conv_cmd_ok = size == -1 && ceq(s, "p \"x y\"", 8);
     return CONV_CMD;
   }
-  conv_extra_ok = size == 5 && ceq(s, "A=b\0", 5);
-  return CONV_EXTRA;
+  if (s == c1) {
+    /* the block has inner terminators: the library has to pass its full size */
+    conv_extra_ok = size == 9 && ceq(s, "A=b\0C=d\0", 9);
+    return CONV_EXTRA;
+  }
+  return CONV_OTHER;
 }
 
 BOOL SetHandleInformation(HANDLE h, DWORD mask, DWORD flags)
@@ -331,9 +344,9 @@ DWORD SetErrorMode(DWORD m)
 
 /* explicit arrays: CBMC gave the literal L"wd" the object of the narrow literal "wd" */
 static const wchar_t W_CMD[] = { 'p', ' ', '"', 'x', ' ', 'y', '"', 0 };
-static const wchar_t W_PE[] = { 'P', '=', '1', 0, 'A', '=', 'b', 0, 0 };
+static const wchar_t W_PE[] = { 'P', '=', '1', 0, 'A', '=', 'b', 0, 'C', '=', 'd', 0, 0 };
 static const wchar_t W_P[] = { 'P', '=', '1', 0, 0 };
-static const wchar_t W_E[] = { 'A', '=', 'b', 0, 0 };
+static const wchar_t W_E[] = { 'A', '=', 'b', 0, 'C', '=', 'd', 0, 0 };
 static const wchar_t W_WD[] = { 'w', 'd', 0 };
 static bool weq(const wchar_t *a, const wchar_t *b, int n)
 {
@@ -400,11 +413,11 @@ BOOL CreateProcessW(LPCWSTR app, LPWSTR cmd, SECURITY_ATTRIBUTES *pa, SECURITY_A
   if (e == NULL) {
     cp_ok_env = false;
   } else if (parent_in && want_extra) {
-    cp_ok_env = weq(e, W_PE, 9);
+    cp_ok_env = weq(e, W_PE, 13);
   } else if (parent_in) {
     cp_ok_env = weq(e, W_P, 5);
   } else if (want_extra) {
-    cp_ok_env = weq(e, W_E, 5);
+    cp_ok_env = weq(e, W_E, 9);
   } else {
     cp_ok_env = e[0] == L'\0';
   }
@@ -433,11 +446,18 @@ BOOL GenerateConsoleCtrlEvent(DWORD e, DWORD g) { (void) e; (void) g; return 1; 
 BOOL TerminateProcess(HANDLE h, DWORD c) { (void) h; (void) c; return 1; }
 
 static const char *const argv_obj[] = { "p", "x y", NULL };
-static const char *const extra_obj[] = { "A=b", NULL };
+static const char *const extra_obj[] = { "A=b", "C=d", NULL };
 
 static int run_cfg(bool wd, bool extra, bool extend, bool envok, int fail_index, HANDLE *process)
 {
-  fail_at = fail_index == 6 ? late_fail : fail_index;
+  /* exactly one call site runs per path, so these resets change nothing - but the symbolic executor
+   * merges the state after every (skipped) site, and without them the pool counters reach the next
+   * site as if-then-else terms, every block pointer becomes symbolic, and the run does not fit in
+   * memory */
+  cpool_next = 0;
+  wpool_next = 0;
+  early_fail = fail_index == 6 ? -1 : fail_index;
+  late_fail_at = fail_index == 6 ? late_fail : -1;
   call_no = 0;
   want_wd = wd;
   want_extra = extra;
